@@ -20,6 +20,7 @@ type cacheFunctions[MetadataT any] struct {
 	getCacheSize  func() int64
 	getCacheLen   func() int
 	getLock       func(key CacheKey) *sync.RWMutex
+	getMetadata   func(key CacheKey) *EntryMetadata[MetadataT] // Current metadata of the entry, nil if there is none. Does not count as an access.
 }
 
 type cacheJanitor[MetadataT any] struct {
@@ -120,6 +121,14 @@ func (j *cacheJanitor[MetadataT]) cleanExpiredEntries() {
 		locked := lock.TryLock()
 		if !locked {
 			slog.Info("Failed to acquire lock for key", "key", key.Hex)
+			continue
+		}
+
+		// The scan above ran without the lock: the entry may have been refreshed, revalidated or
+		// replaced since. Only remove what is (still) expired now that we hold the lock.
+		if meta := j.cacheFns.getMetadata(key); meta == nil || !meta.Expires.Before(time.Now()) {
+			lock.Unlock()
+			slog.Info("Cache entry is no longer expired, keeping it", "key", key.Hex)
 			continue
 		}
 
